@@ -58,6 +58,21 @@ claim("C03", "sched",
       "asynchronous mode on the virtual loop (threaded mode: see level text of later revisions); n<=3; deviations <=1 quick / <=2 thorough; map_async bound n+1 as pinned by test_map_async",
       "DESIGN.md §3 C03")
 
+claim("C04", "sched",
+      "bounded exhaustive schedule enumeration (ICB) with instrumented reference counters and a log-derived holder model",
+      "For each node that can hold data (buffer, delay, rate_limit, map_async, timed_window(_unique), partition(size/timeout), partition_unique, latest, sliding_window, collect, "
+      "zip, combine_latest, zip_latest, direct, map) in front of a gated consumer, every schedule of emits, completions, *failures* of consumers / mapped functions and timers within the "
+      "deviation bound is run on the real nodes; at the log position of every release that brings a counter to zero the element must not be held inside the node, must not be in a batch a consumer is still handling, and its processing must not have raised.",
+      "virtual event loop; 2-4 elements; one holding node per scenario (two-node compositions only via C02/C05 shapes); deviations <=1 quick, <=2 thorough",
+      "DESIGN.md §3 C04")
+
+claim("C05", "sched+seqbfs",
+      "bounded exhaustive schedule enumeration (timing nodes) + explicit-state BFS over input sequences (synchronous nodes), instrumented counters vs reference holders",
+      "Schedule half: the C04 scenarios, with count == number of legitimate holders evaluated at every quiescent point without a pending consumer, never negative, never rising after zero, "
+      "callback exactly once for everything that left or was dropped.  Sequence half: see seqbfs (C01 program space with a counter on every element).",
+      "virtual event loop; bounds as C04; known finding: latest keeps the delivered element's reference until replaced (test-pinned)",
+      "DESIGN.md §3 C05")
+
 ALL = ["C%02d" % i for i in range(1, 21)]
 
 
